@@ -48,8 +48,8 @@ def run(ck, ix, tier):
             raise AnalysisError(f"{cn}: to_reference/from_reference not found")
         ck.analysed(to, fr)
         try:
-            ti, tf = inverse.method_branches(to.node)
-            fi_, ff = inverse.method_branches(fr.node)
+            ti, tf = _method_branches(to.node)
+            fi_, ff = _method_branches(fr.node)
         except inverse.NotInFragment as e:
             raise AnalysisError(f"{cn}: {e}")
         ck.check(ti == tf, "G-TWIN", f"{cn}.to_reference|inplace==functional", to.loc(), inverse.show(tf),
@@ -64,11 +64,11 @@ def run(ck, ix, tier):
                  f"in-place from_reference [{inverse.show(fi_)}] is not the inverse of in-place to_reference [{inverse.show(ti)}]")
     # shape of the defining maps
     oc = ix.cls(ND, "OffsetConverter")
-    _, tf = inverse.method_branches(oc.methods["to_reference"].node)
+    _, tf = _method_branches(oc.methods["to_reference"].node)
     ck.check(tf == [("M", (("self.scale", 1),)), ("A", (("self.offset", 1),))], "G-INV", "OffsetConverter.to_reference|value*scale+offset", oc.methods["to_reference"].loc(),
              "reference = value * scale + offset", f"to_reference computes [{inverse.show(tf)}], not value*scale + offset")
     lc = ix.cls(ND, "LogarithmicConverter")
-    _, ff = inverse.method_branches(lc.methods["from_reference"].node)
+    _, ff = _method_branches(lc.methods["from_reference"].node)
     want = [("M", (("self.scale", -1),)), ("F", "log"), ("M", (("log(self.logbase)", -1), ("self.logfactor", 1)))]
     ck.check(ff == want, "G-INV", "LogarithmicConverter.from_reference|logfactor*log(value/scale)/log(logbase)", lc.methods["from_reference"].loc(),
              "log value = logfactor * log(value/scale) / log(logbase)", f"from_reference computes [{inverse.show(ff)}], expected [{inverse.show(want)}]")
@@ -93,6 +93,45 @@ def run(ck, ix, tier):
     # ------------------------------------------------------------ (e) delta twin
     delta_twin_rules(ck, ix)
     return EXPLANATION
+
+
+def _specialised(stmts, flag, truth):
+    """The statements that execute when the boolean parameter `flag` has the given truth value: tests of the flag alone
+    (`if inplace:` / `if not inplace:` / `x if inplace else y`) are decided and whatever follows a `return` is dropped,
+    so `if inplace: A else: B; return value`, `if not inplace: return B'; A; return value` and
+    `return B' if not inplace else A'` read the same.  Other conditions are kept (their bodies specialised)."""
+    def verdict(test):
+        ats = list(shape.atoms(test))
+        if len(ats) == 1 and isinstance(ats[0][0], ast.Name) and ats[0][0].id == flag:
+            return (ats[0][1] == "t") == truth
+        return None
+
+    def ends(lst):
+        return bool(lst) and (isinstance(lst[-1], (ast.Return, ast.Raise)) or (isinstance(lst[-1], ast.If) and ends(lst[-1].body) and ends(lst[-1].orelse)))
+    out = []
+    for st in stmts:
+        if isinstance(st, ast.Expr) and isinstance(st.value, ast.Constant):
+            continue
+        if isinstance(st, ast.If):
+            v = verdict(st.test)
+            if v is not None:
+                out += _specialised(st.body if v else st.orelse, flag, truth)
+            else:
+                out.append(ast.copy_location(ast.If(test=st.test, body=_specialised(st.body, flag, truth), orelse=_specialised(st.orelse, flag, truth)), st))
+        elif isinstance(st, (ast.Return, ast.Assign)) and isinstance(st.value, ast.IfExp) and verdict(st.value.test) is not None:
+            val = st.value.body if verdict(st.value.test) else st.value.orelse
+            new = ast.Return(value=val) if isinstance(st, ast.Return) else ast.Assign(targets=st.targets, value=val)
+            out.append(ast.copy_location(new, st))
+        else:
+            out.append(st)
+        if ends(out):
+            break
+    return out
+
+
+def _method_branches(fn, var="value", flag="inplace"):
+    """(in-place segments, functional segments) of a converter method, whatever the shape of the test of `inplace`."""
+    return tuple(inverse.segments(inverse.stmts_ops(_specialised(fn.body, flag, truth), var)) for truth in (True, False))
 
 
 def _returns_only(f, *texts):
@@ -217,6 +256,42 @@ def convert_rules(ck, ix):
                  f"the delta guard for the offset unit of `{side}` inspects `{side}` itself instead of `{other}`")
 
 
+def _selections(fn, sources, fact_of):
+    """[(name or None, text or None)]: the collections built in `fn` from an iteration over one of `sources`
+    (expression texts) that keep an element only where the fact `fact_of(<unit variable>)` = (atom text, truth) is
+    known - a comprehension with a filter, or a loop that appends to / adds to a local.  The unit variable is the loop
+    target, or its first component when the target is a tuple (`for unit, exponent in units.items()`)."""
+    out = []
+
+    def uvar(t):
+        if isinstance(t, ast.Name):
+            return t.id
+        if isinstance(t, ast.Tuple) and t.elts and isinstance(t.elts[0], ast.Name):
+            return t.elts[0].id
+        return None
+    for c in walk_local(fn):
+        if isinstance(c, (ast.ListComp, ast.GeneratorExp, ast.SetComp)) and len(c.generators) == 1 and norm(c.generators[0].iter) in sources:
+            g = c.generators[0]
+            u = uvar(g.target)
+            kept = {(norm(p_), t_) for i_ in g.ifs for p_, t_ in shape.conjuncts(i_, "t")}
+            if u is not None and fact_of(u) in kept and any(isinstance(x, ast.Name) and x.id == u for x in ast.walk(c.elt)):
+                par = getattr(c, "_parent", None)
+                while isinstance(par, ast.Call) and call_name(par) in ("list", "tuple", "set", "sorted") and len(par.args) == 1:
+                    par = getattr(par, "_parent", None)
+                name = par.targets[0].id if isinstance(par, ast.Assign) and len(par.targets) == 1 and isinstance(par.targets[0], ast.Name) else None
+                out.append((name, norm(par.value) if name else norm(c)))
+        elif isinstance(c, ast.For) and norm(c.iter) in sources:
+            u = uvar(c.target)
+            if u is None:
+                continue
+            text, truth = fact_of(u)
+            for x in ast.walk(c):
+                if isinstance(x, ast.Call) and call_name(x) in ("append", "add") and isinstance(x.func, ast.Attribute) and isinstance(x.func.value, ast.Name) and len(x.args) == 1 \
+                        and any(isinstance(y, ast.Name) and y.id == u for y in ast.walk(x.args[0])) and known(x, fn, lambda a_: norm(a_) == text, truth):
+                    out.append((x.func.value.id, None))
+    return out
+
+
 def validate_rules(ck, ix):
     """_validate_and_extract refuses more than one offset unit, an offset unit in higher order and (without autoconvert)
     an offset unit in a multiplicative context.  The collection of non-multiplicative (unit, exponent) pairs and the
@@ -224,21 +299,12 @@ def validate_rules(ck, ix):
     fi = ix.func(NR, "GenericNonMultiplicativeRegistry._validate_and_extract")
     ck.analysed(fi)
     fn, cfg = fi.node, cfg_of(fi)
-    # the list of non-multiplicative (unit, exponent) pairs, whatever it is called: a comprehension over units.items()
-    # filtered by `not self._is_multiplicative(<unit>)`
-    NM = NM_text = None
-    for a_ in walk_local(fn):
-        if not (isinstance(a_, ast.Assign) and len(a_.targets) == 1 and isinstance(a_.targets[0], ast.Name) and isinstance(a_.value, (ast.ListComp, ast.GeneratorExp)) and len(a_.value.generators) == 1):
-            continue
-        g_ = a_.value.generators[0]
-        if norm(g_.iter) != "units.items()" or not isinstance(g_.target, ast.Tuple):
-            continue
-        uvar = norm(g_.target.elts[0])
-        facts_ = {(norm(p_), t_) for i_ in g_.ifs for p_, t_ in shape.conjuncts(i_, "t")}
-        if (f"self._is_multiplicative({uvar})", False) in facts_:
-            NM, NM_text = a_.targets[0].id, norm(a_.value)
+    # the collection of the non-multiplicative units (names or (unit, exponent) pairs), whatever it is called and however
+    # it is built: the elements of an iteration over `units` kept where `self._is_multiplicative(<unit>)` is known false
+    sel = [x for x in _selections(fn, ("units", "units.items()", "units.keys()"), lambda u: (f"self._is_multiplicative({u})", False)) if x[0] is not None]
+    NM, NM_text = (sel[0][0], sel[0][1]) if sel else (None, None)
     ck.check(NM is not None, "G-PROV", "_validate_and_extract|selects-non-multiplicative-units", fi.loc(), "non-multiplicative units selected by the registry predicate", "non-multiplicative units are no longer selected with `not self._is_multiplicative(unit)`")
-    ck.floor("G-PROV", 1 if NM is not None else 0, 1, "collection of the non-multiplicative (unit, exponent) pairs in _validate_and_extract")
+    ck.floor("G-PROV", 1 if NM is not None else 0, 1, "collection of the non-multiplicative units (or (unit, exponent) pairs) in _validate_and_extract")
     more = lambda x: (f"len({x}) > 1", f"len({x}) >= 2", f"1 < len({x})", f"2 <= len({x})")
 
     def many(a_):
@@ -254,12 +320,18 @@ def validate_rules(ck, ix):
     no_auto = atom_is(fn, "self.autoconvert_offset_to_baseunit")
 
     def exp_is_one(a_):
-        # `<exponent> == 1` where <exponent> is a plain local (the exponent popped from the pair), not a length
+        # `<exponent> == 1` where <exponent> is a plain local (the exponent taken from the pair), not a length, or the
+        # exponent looked up in `units`
         if not (isinstance(a_, ast.Compare) and len(a_.ops) == 1 and isinstance(a_.ops[0], ast.Eq)):
             return False
         l_, r_ = a_.left, a_.comparators[0]
         e_ = l_ if norm(r_) == "1" else (r_ if norm(l_) == "1" else None)
-        return isinstance(e_, ast.Name) and not shape.rnorm(e_, fn, 2).startswith("len(")
+        if isinstance(e_, ast.Name) and not isinstance(shape.unalias(e_, fn), ast.Name):
+            r_ = shape.unalias(e_, fn)
+            return not (isinstance(r_, ast.Call) and call_name(r_) == "len") and not isinstance(r_, ast.Constant)
+        if isinstance(e_, ast.Name):
+            return True
+        return e_ is not None and (shape.match("units[_K]", e_) is not None or shape.match("units.get(_K)", e_) is not None)
     e_many = edges_where(cfg, fn, many, True)
     e_exp = edges_where(cfg, fn, exp_is_one, False)
     both = set(edges_where(cfg, fn, several_units, True))
@@ -607,18 +679,7 @@ def muldiv_rules(ck, ix):
              "multiplicative iff no non-multiplicative unit", "_is_multiplicative no longer tests for the absence of non-multiplicative units")
     # _get_non_multiplicative_units: the units of self._units (whatever the loop variable is called) whose definition is known not to be multiplicative
     f = ix.func(NO, "NonMultiplicativeQuantity._get_non_multiplicative_units")
-    sel = False
-    for comp in [c for c in walk_local(f.node) if isinstance(c, (ast.ListComp, ast.GeneratorExp, ast.SetComp)) and len(c.generators) == 1]:
-        g = comp.generators[0]
-        v = norm(g.target)
-        if norm(g.iter) in ("self._units", "self._units.keys()", "self._units.items()") and norm(comp.elt) == v.split(",")[0].strip("( )"):
-            u = v.split(",")[0].strip("( )")
-            known_ = {(norm(a), t) for i in g.ifs for a, t in shape.conjuncts(i, "t")}
-            sel = sel or (f"self._get_unit_definition({u}).is_multiplicative", False) in known_
-    for loop in [l for l in walk_local(f.node) if isinstance(l, ast.For) and norm(l.iter) in ("self._units", "self._units.keys()")]:
-        u = norm(loop.target)
-        for c in [c for c in ast.walk(loop) if isinstance(c, ast.Call) and call_name(c) == "append" and len(c.args) == 1 and norm(c.args[0]) == u]:
-            sel = sel or known(c, f.node, lambda a: norm(a) == f"self._get_unit_definition({u}).is_multiplicative", False)
+    sel = bool(_selections(f.node, ("self._units", "self._units.keys()", "self._units.items()"), lambda u: (f"self._get_unit_definition({u}).is_multiplicative", False)))
     ck.check(sel, "G-PROV", "NonMultiplicativeQuantity._get_non_multiplicative_units", f.loc(), "selects units whose definition is not multiplicative", "_get_non_multiplicative_units no longer selects by `not is_multiplicative`")
     # _has_compatible_delta: the exact delta twin, or a delta unit with the same reference as the offset unit
     f = ix.func(NO, "NonMultiplicativeQuantity._has_compatible_delta")
@@ -626,8 +687,14 @@ def muldiv_rules(ck, ix):
     twin = [r for r in shape.returns_of(f.node) if shape.rnorm(r.value, f.node) == "True" and known(r, f.node, atom_is(f.node, f"'delta_' + unit in {DU}"), True)] \
         or [h for pat in (f"'delta_' + unit in {DU}",) for h in find(ix, f, pat, inline=False) if isinstance(stmt_of(h[0]), ast.Return)]
     REF = lambda x: f"self._get_unit_definition({x}).reference"
+    # ... some delta unit D has the reference of the offset unit: `any(<REF(D) == REF(unit)> for D in deltas)`, or a loop over
+    # the delta units that answers True where the equality is known
     same_ref = [h for gen in ("({e} for _D in {it})", "[{e} for _D in {it}]") for e in (f"{REF('_D')} == {REF('unit')}", f"{REF('unit')} == {REF('_D')}")
                 for h in find(ix, f, "any(" + gen.format(e=e, it=DU) + ")", inline=False)]
+    for loop in [l for l in walk_local(f.node) if isinstance(l, ast.For) and isinstance(l.target, ast.Name) and shape.rnorm(l.iter, f.node) == DU]:
+        d_ = loop.target.id
+        same = atom_is(f.node, f"{REF(d_)} == {REF('unit')}", f"{REF('unit')} == {REF(d_)}")
+        same_ref += [r for r in ast.walk(loop) if isinstance(r, ast.Return) and r.value is not None and shape.rnorm(r.value, f.node) == "True" and known(r, f.node, same, True)]
     ck.check(bool(twin) and bool(same_ref), "G-PROV", "NonMultiplicativeQuantity._has_compatible_delta", f.loc(), "exact delta twin or a delta with the same reference", "_has_compatible_delta no longer looks for the delta twin / same-reference delta")
 
     # guards in the multiplicative operators
